@@ -213,3 +213,10 @@ def run(ctx):
     # ---- the same search loop on BINARY64 score tables of the real built-in scorers (Model/Generic.v at Model/GenericF.v), bit for bit ----
     from harness import floatstreams
     floatstreams.cbs_float_stream(ctx, ctx.n(24, 120))
+
+    from harness.variants import variants_stream
+    from skchange.anomaly_detectors import CircularBinarySegmentation as _CBS
+    from skchange.costs import GaussianVarCost as _GV
+    variants_stream(ctx, "CircularBinarySegmentation(L2Cost)", lambda: _CBS(min_segment_length=2, max_interval_length=40), ctx.n(3, 14), n_range=(30, 46),
+                    flat_make=lambda: _CBS(min_segment_length=2, max_interval_length=40, threshold_scale=1e6))
+    variants_stream(ctx, "CircularBinarySegmentation(GaussianVarCost)", lambda: _CBS(anomaly_score=_GV(), min_segment_length=3, max_interval_length=30), ctx.n(1, 8), n_range=(30, 40))
